@@ -103,6 +103,8 @@ func gateMsg(name string, hbh uint32) []byte {
 		c := goodCER(hbh, hbh)
 		c.Inband = "nonzero"
 		return buildCER(c, dict.Default)
+	case "cer_sec_ccr":
+		return append(gateMsg("cer_sec", hbh), appMsg(272, 4, true, hbh+1)...)
 	case "dwr":
 		return buildDWR(hbh, hbh, false, peerHost, peerRealm)
 	case "ccr":
